@@ -2,6 +2,78 @@
 
 # id -> dict(text, note, technique, design_ref)  for claimed properties
 CLAIMED = {
+    "C03": dict(
+        text=(
+            'Writer/reader agreement decided statically: codec-table entries resolve to code of the named codec library and save/load use matching table roles; every metadata key read on a non-failing loader path is written by the saver side; per-chunk metadata has provenance in the chunk being written; rechunker typestate (flush and save before close, chunk numbers advance once per save); empty-chunk handling agrees on both sides. Necessary conditions of a faithful round trip; bit-identity is not decided.'
+        ),
+        note="Trusted: CPython ast; each codec library's compress/decompress are inverse; metadata variable naming table (metadata, md, chunk_info, c).",
+        technique='sibling agreement (writer vs. reader key sets, codec family resolution), provenance of stored values, typestate path rules',
+        design_ref="DESIGN.md section 4 C03",
+    ),
+    "C07": dict(
+        text=(
+            'Guard dominance for merge / concatenate, exhaustive ordering-domain enumeration of the sub/superrun split against its specification, protected use of identity-less reductions (incl. the cursor idiom of the split-point search), and constructor discipline of the rechunk paths (only strict split / concatenate). That rows are preserved and split points optimal is not decided.'
+        ),
+        note='Trusted: CPython ast; numpy reductions raise on empty input.',
+        technique='dominator rules, weak-ordering enumeration, reduction-site lint with cursor idiom, who-may-construct rule',
+        design_ref="DESIGN.md section 4 C07",
+    ),
+    "C08": dict(
+        text=(
+            'Structure of Plugin.iter decided on its CFG: raise-instead-of-drop guards (end-of-run re-fetch, left-over buffer, premature end, inconsistent ranges, trim loop else), data flow of every split (left part to compute, right part back in front of the buffer, fetches appended), same-kind merge in both code paths, pacemaker selection and fetch-until-end loop. Exactly-once delivery as a function of data is not decided.'
+        ),
+        note='Trusted: CPython ast; Chunk.split returns (left, right); Chunk.concatenate preserves argument order.',
+        technique='guard-existence rules with dominating facts (incl. handler code), data-flow of tuple targets, sibling agreement',
+        design_ref="DESIGN.md section 4 C08",
+    ),
+    "C09": dict(
+        text=(
+            "Typestate of the overlap-window plugin's cross-chunk state: final flush on every normal exit, state assigned on every path in both output branches, already-sent results cut before emission, cached input in front of new input, input cache refreshed, plugin sequential. Window arithmetic is not decided."
+        ),
+        note='Trusted: CPython ast; Chunk.split semantics.',
+        technique='cut-set path rules on the CFG (must-assign / must-call), dominance ordering of split statements',
+        design_ref="DESIGN.md section 4 C09",
+    ),
+    "C10": dict(
+        text=(
+            "Exhaustive ordering-domain enumeration (4683 weak orderings of six bounds) showing that chunk pruning equals 'no overlap' and never prunes a chunk with a selected row in either mode, and that both row predicates equal their definitions; plus guard dominance for no-save on partial requests, the no-chunk error, selection-before-yield with the request's own arguments, and the early/strict split discipline of in-chunk trimming. Equality with filter(full result) on data is not decided."
+        ),
+        note='Trusted: CPython ast; rows have positive duration and lie inside their chunk (enforced by Chunk.__init__).',
+        technique='finite abstract-domain enumeration of comparison predicates + dominator rules + argument binding checks',
+        design_ref="DESIGN.md section 4 C10",
+    ),
+    "C13": dict(
+        text=(
+            'Static backpressure structure: capacity gate dominates the only heap insert; in lazy mode every source advance is gated by the fetch predicate (per output in the divider); exhaustive decision table of _can_fetch; lazy only without worker pools, savers never drive, flow-freely = produced - required; demand published before waiting and withdrawn before extraction. The numeric bound per plugin graph is not decided.'
+        ),
+        note='Trusted: CPython ast; threading.Condition semantics.',
+        technique='cut-set path rules for gates, decision-table extraction, wiring-argument provenance',
+        design_ref="DESIGN.md section 4 C13",
+    ),
+    "C14": dict(
+        text=(
+            'Key dependence on the subrun specification, persistence of per-chunk subruns, exhaustive enumeration of the run-annotation split, order preservation of the specification from define_run through the metadata writer to the loader chain, and planning rules of the superrun branch. Equality of the concatenated rows is not decided.'
+        ),
+        note='Trusted: CPython ast; dict order survives json without sort_keys.',
+        technique='provenance / who-may-construct rules, weak-ordering enumeration, order-preservation lint on serialisation, dominator rules',
+        design_ref="DESIGN.md section 4 C14",
+    ),
+    "C17": dict(
+        text=(
+            'Must-pass-through of sortedness checks (ValueError on failure) for both inputs of every public interval wrapper, whole-package stable-sort sweep, and ordering-domain enumeration of the containment and touching-window comparison predicates against their definitions. Kernel loop logic and numeric agreement with quadratic definitions are not decided.'
+        ),
+        note='Trusted: CPython ast; numpy mergesort is stable.',
+        technique='inter-procedural must-pass-through rule, package-wide call-site sweep with positive fixture, weak-ordering enumeration',
+        design_ref="DESIGN.md section 4 C17",
+    ),
+    "C18": dict(
+        text=(
+            'Effect (field write-set) analysis of the waveform routines, identical-slice copy rule for the reduction kernel, metadata-copy field set, and assignment coverage / threshold comparison of the hit finder. Which samples are kept and numeric field values are not decided.'
+        ),
+        note='Trusted: CPython ast; numpy structured-array store semantics.',
+        technique='effect summaries through aliases of record arrays, write-set table, assignment coverage',
+        design_ref="DESIGN.md section 4 C18",
+    ),
     "C01": dict(
         text=(
             "Static necessary conditions of chunking/processor independence: closed ownership table for "
